@@ -109,8 +109,9 @@ def t_reduce_beyond(k):
     hi = "n" if sym else "8"
     body = [
         ["alloc", "acc", "f32", [ext], "DRAM"],
-        ["for", "k", "0", ext, [["assign", "acc", ["k"], "0.0"]], "seq"],
-        ["for", "k", "0", hi, [["reduce", "acc", ["k + 2"], "x[k]"], ["assign", "y", ["k"], "acc[k]"]], "seq"],
+        ["for", "k", "0", hi, [["assign", "acc", ["k"], "0.0"]], "seq"],
+        ["for", "k", "0", hi, [["reduce", "acc", ["k + 2"], "x[k]"]], "seq"],
+        ["for", "k", "0", hi, [["assign", "y", ["k"], "acc[k]"]], "seq"],
     ]
     args = ([_arg("n", "size")] if sym else []) + [_arg("x", "tensor", dims=[hi]), _arg("y", "tensor", dims=[hi])]
     main = {"name": "foo", "args": args, "preds": [], "body": body}
@@ -181,7 +182,20 @@ def t_window_on_alloc(k):
     return {"prec": "f32", "cfg": False, "callees": [], "main": main}
 
 
-TEMPLATES = [t_window_on_alloc, t_window_of_alloc, t_else_then_more, t_dependent_alloc, t_rmw_prefix, t_triangular_alloc, t_reduce_beyond, t_config_chain, t_maybe_zero_bound, t_masked_callee]
+def t_config_fields(k):
+    """callee writing one config field; caller writing ANOTHER field of the same config"""
+    seta = {"name": "seta", "args": [_arg("v", "index", range=(0, 7))], "preds": ["v >= 0 and v <= 7"], "body": [["wcfg", "CfgA", "a", "v"]]}
+    body = [
+        ["call", "seta", [str(1 + k % 3)]],
+        ["wcfg", "CfgA", "b", str(2 + k % 4)],
+        ["for", "i", "0", "8", [["if", "i < CfgA.a + CfgA.b", [["assign", "x", ["i"], "1.0"]], []]], "seq"],
+        ["wcfg", "CfgA", "a", "5"],
+    ]
+    main = {"name": "foo", "args": [_arg("x", "tensor", dims=["8"])], "preds": [], "body": body}
+    return {"prec": "f32", "cfg": True, "callees": [seta], "main": main}
+
+
+TEMPLATES = [t_window_on_alloc, t_config_fields, t_window_of_alloc, t_else_then_more, t_dependent_alloc, t_rmw_prefix, t_triangular_alloc, t_reduce_beyond, t_config_chain, t_maybe_zero_bound, t_masked_callee]
 
 
 def templates():
@@ -194,3 +208,17 @@ def programs_or_templates(pct=25, **opts):
 
     n = max(1, round(100 / max(1, pct)) - 1)
     return st.one_of(templates(), *[programs(**opts) for _ in range(n)])
+
+
+def single_step_cases(op_names, val, params=(0, 1), sites=4, variants=((0, 0), (1, 1), (2, 5)), extra=None):
+    """every template x every op x the first `sites` candidate sites x a few parameter variants,
+    as one-step schedules (JSON cases in the C01 format; `extra` appends per-step fields)"""
+    ops = sorted(set(op_names))
+    for ti, t in enumerate(TEMPLATES):
+        for tk in params:
+            prog = t(tk)
+            for op in ops:
+                for k1 in range(sites):
+                    for k2, k3 in variants:
+                        step = [op, k1, k2, k3] + list(extra or [])
+                        yield {"prog": prog, "steps": [step], "val": val}
